@@ -1203,7 +1203,7 @@ def run(ctx):
     tmpd = "/tmp/c01_run_%d" % os.getpid()
     os.makedirs(tmpd, exist_ok=True)
     outs = ctx.impl_par("c01_impl.py", [{"cases": b, "algos": ALGOS, "swap": True, "seed": ctx.seed,
-                                         "out": os.path.join(tmpd, "exp_%d.json" % k)} for k, b in enumerate(batches)], timeout=900)
+                                         "out": os.path.join(tmpd, "exp_%d.json" % k)} for k, b in enumerate(batches)], timeout=900 if quick else 3600)
     results = {}
     impl_crash = []
     for rc, res, txt in outs:
@@ -1251,28 +1251,63 @@ def run(ctx):
             if e is None:
                 problem("corr-unrepresentable", t[0], t[2], "a factor of the implementation's output is not a dyadic multiple of the input scale")
         runnable.sort(key=lambda te: -len(te[1]))
-        shards = [runnable[k::14] for k in range(14) if runnable[k::14]]          # deal by decreasing size
+        nsh = max(14, (len(runnable) + 59) // 60)                                  # at most ~60 evaluations per coqc run
+        shards = [runnable[k::nsh] for k in range(nsh) if runnable[k::nsh]]        # deal by decreasing size
         # one `Redirect`ed evaluation per shard: the parallel runner does not drain coqc's pipe while it runs
         rdir = os.path.join(common.COQ, "Corr", "run_" + ctx.pid)
         os.makedirs(rdir, exist_ok=True)
-        items = []
-        for k, sh in enumerate(shards):
-            body = ";\n ".join("(%s)" % e for _, e in sh)
-            items.append(("c01_%d" % k, PRE + 'Redirect "%s" Eval vm_compute in ([%s]).\n' % (os.path.join(rdir, "out_%d" % k), body)))
-        res = ctx.coq_eval_many(items, timeout=900, par=14)
         import re as _re
-        for k, sh in enumerate(shards):
-            rc, out = res["c01_%d" % k]
-            ls = None
-            fn = os.path.join(rdir, "out_%d.out" % k)
-            if rc == 0 and os.path.exists(fn):
-                txt = open(fn).read().replace("- ", "-")
-                ls = [[int(x) for x in _re.findall(r"-?\d+", grp)] for grp in _re.findall(r"\[([^\[\]]*)\]", txt)]
-            if os.path.exists(fn):
-                os.remove(fn)
-            if ls is None or len(ls) != len(sh):
-                problem("corr-model-eval", None, None, "coqc failed on shard %d (rc %s): %s" % (k, rc, out[-600:]))
-                continue
+        shard_timeout = 900 if quick else 3000
+
+        def run_shards(shs, tag0):
+            """-> list of (shard, parsed lists or None, rc, tail)"""
+            items = []
+            for k, sh in enumerate(shs):
+                body = ";\n ".join("(%s)" % e for _, e in sh)
+                items.append(("c01_%s%d" % (tag0, k), PRE + 'Redirect "%s" Eval vm_compute in ([%s]).\n'
+                              % (os.path.join(rdir, "out_%s%d" % (tag0, k)), body)))
+            res = ctx.coq_eval_many(items, timeout=shard_timeout, par=14)
+            outl = []
+            for k, sh in enumerate(shs):
+                rc, out = res["c01_%s%d" % (tag0, k)]
+                ls = None
+                fn = os.path.join(rdir, "out_%s%d.out" % (tag0, k))
+                if rc == 0 and os.path.exists(fn):
+                    txt = open(fn).read().replace("- ", "-")
+                    ls = [[int(x) for x in _re.findall(r"-?\d+", grp)] for grp in _re.findall(r"\[([^\[\]]*)\]", txt)]
+                    if len(ls) != len(sh):
+                        ls = None
+                if os.path.exists(fn):
+                    os.remove(fn)
+                for ext in (".v", ".vo", ".vok", ".vos", ".glob"):
+                    fz = os.path.join(rdir, "c01_%s%d%s" % (tag0, k, ext))
+                    if os.path.exists(fz):
+                        os.remove(fz)
+                outl.append((sh, ls, rc, out[-600:]))
+            return outl
+        done = []
+        pending = run_shards(shards, "a")
+        for attempt in ("b", "c", "d"):
+            # a failed shard (time-out under load, one ill-formed evaluation) is split and retried before anything is reported
+            failed = [x for x in pending if x[1] is None]
+            done += [x for x in pending if x[1] is not None]
+            if not failed:
+                pending = []
+                break
+            stats["model_eval_shards_retried"] = stats.get("model_eval_shards_retried", 0) + len(failed)
+            halves = []
+            for sh, _, rc, tail in failed:
+                if len(sh) == 1:
+                    problem("corr-model-eval", sh[0][0][0], sh[0][0][2], "coqc failed on a single evaluation %s (rc %s): %s" % (sh[0][0], rc, tail))
+                else:
+                    halves += [sh[:len(sh) // 2], sh[len(sh) // 2:]]
+            pending = run_shards(halves, attempt) if halves else []
+        for sh, ls, rc, tail in pending:
+            if ls is None:
+                problem("corr-model-eval", None, None, "coqc failed on a shard of %d evaluations after three retries (rc %s): %s" % (len(sh), rc, tail))
+            else:
+                done.append((sh, ls, rc, tail))
+        for sh, ls, rc, tail in done:
             for (tag, _), xs in zip(sh, ls):
                 cid_, what, algo = tag
                 case, view, r = ctxs[cid_]
@@ -1383,7 +1418,7 @@ def run(ctx):
     hbatches = [hists[k::len(obatches)] for k in range(len(obatches))]
     many = {"n": 7, "algos": ["Hopcroft-Karp"] if quick else ALGOS, "seed": ctx.seed}
     oouts = ctx.impl_par("c01_oracle.py", [{"cases": [], "algos": ALGOS, "many_terms": many}]
-                         + [{"cases": b, "algos": ALGOS, "histories": hb} for b, hb in zip(obatches, hbatches)], timeout=1200, par=15)
+                         + [{"cases": b, "algos": ALGOS, "histories": hb} for b, hb in zip(obatches, hbatches)], timeout=1200 if quick else 5400, par=15)
     obyid = {c["id"]: c for c in ocases}
     n_hist = 0
     for rc, res, txt in oouts:
